@@ -324,11 +324,13 @@ TEXT["C26"] = {
              "quiescence after every event): C26_connect_then_simple_calls / C26_and_final_disconnect - for ALL configurations "
              "(no authentication / will), call identifiers, short topic names and payloads every program Connect; c1..cn [; "
              "Disconnect] of Ping and Publish QoS 0/1 calls succeeds call by call with exactly one nil return and exactly the "
-             "documented packet at the broker; C26_refuted - two broker messages in flight on one not-yet-registered topic: only "
+             "documented packet at the broker; C26_subscriptions_and_delivery - programs that also Subscribe on short topics and "
+             "receive broker messages QoS 0/1 on them: every broker message reaches EXACTLY ONE handler invocation of the right "
+             "subscription with its topic, payload and flags and is acknowledged; C26_refuted - two broker messages in flight on one not-yet-registered topic: only "
              "one reaches the handler (recorded finding, witness on the real code in every run). The other API calls, sleep "
              "cycles and handler delivery are NOT proved: the monitor clauses (26,1)-(26,4) check them on the real client + real "
              "gateway against the composed model on generated programs incl. bursts in flight.",
-    "note": COMMON_NOTE + " Partial: the theorems cover Connect / Ping / Publish QoS 0-1 on short topics / Disconnect programs only; everything else of the property is tested against the composed model, not proved. The broker is a specification broker (MQTT 3.1.1 routing), not mosquitto.",
+    "note": COMMON_NOTE + " Partial: the theorems cover Connect / Ping / Publish QoS 0-1 / Subscribe on short topics / broker messages on them / Disconnect programs only; everything else of the property is tested against the composed model, not proved. The broker is a specification broker (MQTT 3.1.1 routing), not mosquitto.",
     "technique": "Coq theorems about the composed client+gateway+broker model for a class of API programs, a refutation witness, and end-to-end differential execution of the real client and gateway with a monitor",
 }
 
